@@ -251,7 +251,11 @@ def one_roundtrip(obs, rng, conv, off, spec):
     import xarray
 
     has_time = not chance(rng, 0.15)
-    model = make_dressed(rng, conv, dress=dict(time=has_time, per_kind=(1, 2), nongrid=1))
+    from ..model.base import DTYPES
+    # also: float variables whose missing data is marked by missing_value alone (the SHOC / EMS habit): no _FillValue in the
+    # source, so none may appear in the saved file either
+    model = make_dressed(rng, conv, dress=dict(time=has_time, per_kind=(1, 2), nongrid=1,
+                                               dtypes=DTYPES + [('float32', ('missing_value', -9999.0)), ('float64', ('missing_value', -9999.0))]))
     spec['model'] = model.describe()
     obs.cls('roundtrip:' + conv)
     truth = period = units = None
@@ -456,6 +460,9 @@ def check_file(obs, model, path, fills, how, has_time, units_fixed, period, trut
             ncvar = nc.variables[name]
             want = var.data(model)
             got = numpy.asarray(ncvar[...])
+            if var.dtype.startswith('float') and var.fill is not None:
+                # missing data of a float variable may be stored as NaN or as the declared missing_value: the same thing
+                got = numpy.where(got == numpy.asarray(var.fill[1], dtype=got.dtype), numpy.asarray(numpy.nan, dtype=got.dtype), got)
             obs.expect(tuple(ncvar.dimensions) == var.dims and got.dtype == want.dtype and nan_equal(got, want),
                        'stored (raw) values, dtype and dimensions of the variable are unchanged',
                        lambda: {'how': how, 'variable': name, 'dims': ncvar.dimensions, 'dtype': str(got.dtype),
